@@ -211,8 +211,31 @@ def flat_targets(t, atoms):
 class AstModel:
     """serialises an expression AST; nested generator expressions are paired, in evaluation order, with the code objects among
     the constants of the enclosing code object and replaced by a call of the opaque atom `<genexpr:k>` on their first iterable"""
-    def __init__(self, atoms):
-        self.atoms = atoms; self.nested = []      # nested GeneratorExp nodes in evaluation order
+    def __init__(self, atoms, code=None):
+        self.atoms = atoms; self.nested = []      # nested GeneratorExp / Lambda nodes in evaluation order
+        # for the AST of the SOURCE text: the nested code objects of `code` with the source span their instructions cover, so that a
+        # nested generator / lambda is numbered like the code object CPython made for it (by position, not by order: CPython drops the
+        # code of an operand it folds away, `d or 's' or (y for y in x)`, and compiles the yielded expression after the clauses)
+        self.spans = None; self.claimed = set()
+        if code is not None:
+            self.spans = []
+            for k, c in enumerate(code_consts(code)):
+                pos = [(a, b, cs, ce) for a, b, cs, ce in c.co_positions() if a is not None and cs is not None and not (cs == 0 and ce == 0)]
+                self.spans.append((k, c.co_name, min([(a, cs) for a, b, cs, ce in pos], default=None), max([(b, ce) for a, b, cs, ce in pos], default=None)))
+    def number(self, n):
+        """the number k of `<genexpr:k>` for a nested generator / lambda node"""
+        k = len(self.nested); self.nested.append(n)
+        if self.spans is None or getattr(n, 'col_offset', None) is None: return str(k)          # decompiled AST: no positions, evaluation order
+        want = '<lambda>' if isinstance(n, ast.Lambda) else '<genexpr>'
+        lo, hi = (n.lineno, n.col_offset), (n.end_lineno, n.end_col_offset)
+        best = None
+        for j, name, a, b in self.spans:
+            if name == want and a is not None and lo <= a and b <= hi:
+                # the innermost node that contains the code: a node is visited before the nodes nested in it, so the first claim wins
+                if j not in self.claimed: best = j; break
+        if best is None: return 'dead@%d:%d' % lo        # CPython made no code object for it (dead operand)
+        self.claimed.add(best)
+        return str(best)
     def expr(self, n):
         E = self.expr
         if n is None: return ['none']
@@ -271,14 +294,12 @@ class AstModel:
         if isinstance(n, ast.Lambda):
             a = n.args
             if a.defaults or a.kw_defaults or a.vararg or a.kwarg or a.kwonlyargs or getattr(a, 'posonlyargs', None): raise Unsupported('lambda with defaults / star parameters')
-            k = len(self.nested)
-            self.nested.append(n)          # the function object is an opaque value; its (code, body) pair is checked separately
-            return ['atom', self.atoms('<genexpr:%d>' % k)]
+            k = self.number(n)             # the function object is an opaque value; its (code, body) pair is checked separately
+            return ['atom', self.atoms('<genexpr:%s>' % k)]
         if isinstance(n, ast.GeneratorExp):
-            k = len(self.nested)
-            self.nested.append(n)          # the function object is loaded before its first iterable is evaluated
+            k = self.number(n)             # the function object is loaded before its first iterable is evaluated
             it = E(n.generators[0].iter)
-            return ['app', 'call', [['atom', self.atoms('<genexpr:%d>' % k)], it]]
+            return ['app', 'call', [['atom', self.atoms('<genexpr:%s>' % k)], it]]
         raise Unsupported('node ' + type(n).__name__)
     def top(self, n, kind):
         if kind == 'lam':
@@ -725,7 +746,7 @@ def prepare_code(code, kind, src, node=None, depth=0, params=None):
         # on CPython's own compilation, independent of the decompiler
         try:
             tree = ast.parse(src, mode='eval').body
-            p['model_src_ast'] = AstModel(atoms).top(tree.body if isinstance(tree, ast.Lambda) else tree, kind)
+            p['model_src_ast'] = AstModel(atoms, code).top(tree.body if isinstance(tree, ast.Lambda) else tree, kind)
         except Exception:
             p['model_src_ast'] = None
     p['names'] = atoms.names
